@@ -1,86 +1,54 @@
 import XvcRepo.TmpLemmas
 /-!
   C17 (a file is materialised as exactly the recorded object, by the recorded method) for the targets of ONE command
-  that are copied out of the cache at the same time.  `track`, `carry-in` and `recheck --no-parallel` run `copy_file`
-  of several paths on rayon threads; the repository model (`forEach`) runs them one after the other.  The theorems below
-  justify that: the directory entries two different targets touch are disjoint, therefore every schedule of any number
-  of such threads ends in the state of the sequential run, in which every path holds exactly its own object's bytes
-  and no temporary entry is left.
+  that are copied out of the cache at the same time.  `track`, `carry-in` and `recheck --no-parallel` run the copy step
+  of several paths on rayon threads; the repository model (`forEach`) runs them one after the other.  The theorems
+  below justify that: the directory entries two different targets touch are disjoint, therefore every schedule of any
+  number of such threads ends in the state of the sequential run, in which every path holds exactly its own object's
+  bytes and no temporary entry is left.
 
-  The tie (lib/c17.py, stream `tmp-name`) compares `tmpName` with the name the rebuilt binary really renames from
-  (observed with strace), so a change of the naming scheme is noticed; the stream `parallel-siblings` then searches for
-  the failing input (same stem, different extensions, large files, parallel track).
+  C03 side of the same step (repair F29): the temporary entry is created exclusively in xvc's own directory, so the
+  copy step changes no workspace entry but its target, whatever names the user's files have; the scheme it replaced
+  (a sibling `.<name>.xvc-tmp`, removed first) destroyed a user's file of that name (`C03_sibling_tmp_loses_user_file`).
+
+  The tie (lib/c17.py, stream `tmp-name`) observes with strace which entries the rebuilt binary really renames from:
+  they must be `.xvc/tmp/<pid>-<k>` with pairwise different `k`.  The stream `parallel-siblings` is the search for a
+  failing input (same stem, different extensions, large files, parallel track).
 -/
 namespace XvcRepo.Tmp
 
 variable {δ : Type} [DecidableEq δ]
 
-/-- Two different file names never share a temporary name. -/
-theorem C17_tmp_name_injective (a b : Name) (h : tmpName a = tmpName b) : a = b := by
-  unfold tmpName at h
-  exact List.append_cancel_right (List.cons.inj h).2
-
-/-- The temporary name of a name is never that name (it is longer). -/
-theorem C17_tmp_name_ne_self (a : Name) : tmpName a ≠ a := by
-  intro h
-  have := congrArg List.length h
-  simp [tmpName, suffix] at this
-  omega
-
-theorem C17_tmp_name_has_reserved_shape (a : Name) : IsTmp (tmpName a) := ⟨a, rfl⟩
-
-/-- The decidable test the harness uses to keep generated names out of the reserved shape is exactly `IsTmp`. -/
-theorem C17_isTmpB_iff (n : Name) : isTmpB n = true ↔ IsTmp n := by
-  constructor
-  · intro h
-    cases n with
-    | nil => simp [isTmpB] at h
-    | cons c r =>
-      simp only [isTmpB, Bool.and_eq_true, beq_iff_eq, decide_eq_true_eq] at h
-      obtain ⟨⟨hc, hl⟩, hd⟩ := h
-      refine ⟨r.take (r.length - suffix.length), ?_⟩
-      unfold tmpName
-      rw [hc]
-      congr 1
-      conv => lhs; rw [← List.take_append_drop (r.length - suffix.length) r]
-      rw [hd]
-  · rintro ⟨m, rfl⟩
-    simp [isTmpB, tmpName]
-
 omit [DecidableEq δ] in
-/-- The entries of two different targets are disjoint - provided no target is itself named like a temporary file
-    (the one reservation of the scheme). -/
-theorem C17_footprints_disjoint (p q : WPath δ) (hpq : p ≠ q) (hp : ¬ IsTmp p.name) (hq : ¬ IsTmp q.name) :
-    ∀ e ∈ footprint p, e ∉ footprint q := by
+/-- The entries of two different targets are disjoint: different workspace paths, different counter values.
+    No hypothesis about file names. -/
+theorem C17_footprints_disjoint (pid k₁ k₂ : Nat) (p q : Entry δ) (hpq : p ≠ q) (hk : k₁ ≠ k₂)
+    (hp : p.isWs = true) (hq : q.isWs = true) :
+    ∀ e ∈ footprint pid k₁ p, e ∉ footprint pid k₂ q := by
   intro e he heq
   simp only [footprint, List.mem_cons, List.mem_nil_iff, or_false] at he heq
   rcases he with rfl | rfl <;> rcases heq with h | h
   · exact hpq h
-  · exact hp ⟨q.name, by rw [h]; rfl⟩
-  · exact hq ⟨p.name, by rw [← h]; rfl⟩
-  · apply hpq
-    have hd : p.dir = q.dir := by have := congrArg WPath.dir h; exact this
-    have hn : tmpName p.name = tmpName q.name := by have := congrArg WPath.name h; exact this
-    cases p; cases q
-    simp only [WPath.mk.injEq]
-    exact ⟨hd, C17_tmp_name_injective _ _ hn⟩
+  · rw [h] at hp; simp [Entry.isWs] at hp
+  · rw [← h] at hq; simp [Entry.isWs] at hq
+  · exact hk (Entry.tmp.inj h).2
 
 omit [DecidableEq δ] in
-theorem copyProc_touches (p : WPath δ) (b : Name) : ∀ o ∈ copyProc p b, ∀ e ∈ o.touches, e ∈ footprint p := by
+theorem copyProc_touches (pid k : Nat) (p : Entry δ) (b : Name) :
+    ∀ o ∈ copyProc pid k p b, ∀ e ∈ o.touches, e ∈ footprint pid k p := by
   intro o ho e he
   simp only [copyProc, List.mem_cons, List.mem_nil_iff, or_false] at ho
   rcases ho with rfl | rfl | rfl <;> simp [FsOp.touches] at he <;> simp [footprint, he]
   rcases he with rfl | rfl <;> simp
 
-/-- One copy step, from ANY tree (a stale temporary entry, an old file at the path): the path holds the object's bytes,
-    no temporary entry is left, nothing else changed. -/
-theorem C17_copy_step (p : WPath δ) (b : Name) (s : Tree δ) :
-    run (copyProc p b) s p = some b ∧ run (copyProc p b) s (tmpPath p) = none ∧
-    ∀ x, x ∉ footprint p → run (copyProc p b) s x = s x := by
-  have hne : tmpPath p ≠ p := by
-    intro h
-    exact C17_tmp_name_ne_self p.name (congrArg WPath.name h)
-  have hne' : p ≠ tmpPath p := fun h => hne h.symm
+/-- One copy step, from ANY tree (an old file at the path, a stale temporary entry): the path holds the object's
+    bytes, the temporary entry is gone, nothing else changed. -/
+theorem C17_copy_step (pid k : Nat) (p : Entry δ) (hp : p.isWs = true) (b : Name) (s : Tree δ) :
+    run (copyProc pid k p b) s p = some b ∧ run (copyProc pid k p b) s (.tmp pid k) = none ∧
+    ∀ x, x ∉ footprint pid k p → run (copyProc pid k p b) s x = s x := by
+  have hne : Entry.tmp pid k ≠ p := by
+    intro h; rw [← h] at hp; simp [Entry.isWs] at hp
+  have hne' : p ≠ Entry.tmp pid k := fun h => hne h.symm
   refine ⟨?_, ?_, ?_⟩
   · simp [copyProc, run, FsOp.apply]
   · simp [copyProc, run, FsOp.apply, hne]
@@ -88,81 +56,138 @@ theorem C17_copy_step (p : WPath δ) (b : Name) (s : Tree δ) :
     simp only [footprint, List.mem_cons, List.mem_nil_iff, or_false, not_or] at hx
     simp [copyProc, run, FsOp.apply, hx.1, hx.2]
 
-/-- the threads of one parallel command: one `copy_file` per (path, object bytes) -/
-def threads (items : List (WPath δ × Name)) : List (List (FsOp δ)) := items.map (fun it => copyProc it.1 it.2)
+/-- the threads of one parallel command: the `i`-th copy gets the counter value `k₀ + i` (`fetch_add`) -/
+def threadsFrom (pid : Nat) : Nat → List (Entry δ × Name) → List (List (FsOp δ))
+  | _, [] => []
+  | k, it :: rest => copyProc pid k it.1 it.2 :: threadsFrom pid (k + 1) rest
 
-theorem threads_comm (items : List (WPath δ × Name)) (hn : (items.map Prod.fst).Nodup)
-    (ht : ∀ it ∈ items, ¬ IsTmp it.1.name) : ThreadsComm (threads items) := by
-  unfold ThreadsComm threads
-  rw [List.pairwise_map]
-  have hn' : items.Pairwise (fun a b => a.1 ≠ b.1) := by
-    rw [List.Nodup, List.pairwise_map] at hn; exact hn
-  have hall : items.Pairwise (fun a b => a ∈ items ∧ b ∈ items) := by
-    rw [List.pairwise_iff_forall_sublist]
-    intro a b hab
-    exact ⟨hab.subset (by simp), hab.subset (by simp)⟩
-  refine (hn'.and hall).imp ?_
-  intro a b ⟨hab, ha, hb⟩ x hx y hy
-  apply comm_of_apart
-  intro e he he2
-  exact C17_footprints_disjoint a.1 b.1 hab (ht a ha) (ht b hb) e
-    (copyProc_touches a.1 a.2 x hx e he) (copyProc_touches b.1 b.2 y hy e he2)
+omit [DecidableEq δ] in
+theorem threadsFrom_mem (pid : Nat) (k₀ : Nat) (items : List (Entry δ × Name)) (t : List (FsOp δ))
+    (ht : t ∈ threadsFrom pid k₀ items) : ∃ k it, k₀ ≤ k ∧ it ∈ items ∧ t = copyProc pid k it.1 it.2 := by
+  induction items generalizing k₀ with
+  | nil => simp [threadsFrom] at ht
+  | cons it rest ih =>
+    simp only [threadsFrom, List.mem_cons] at ht
+    rcases ht with rfl | ht
+    · exact ⟨k₀, it, Nat.le_refl _, by simp, rfl⟩
+    · obtain ⟨k, j, hk, hj, rfl⟩ := ih (k₀ + 1) ht
+      exact ⟨k, j, by omega, by simp [hj], rfl⟩
 
-/-- the sequential run: every path ends with its own bytes, given distinct non-reserved paths -/
-theorem sequential_result (items : List (WPath δ × Name)) (hn : (items.map Prod.fst).Nodup)
-    (ht : ∀ it ∈ items, ¬ IsTmp it.1.name) (s : Tree δ) :
-    (∀ it ∈ items, run (threads items).flatten s it.1 = some it.2 ∧ run (threads items).flatten s (tmpPath it.1) = none) ∧
-    (∀ x, (∀ it ∈ items, x ∉ footprint it.1) → run (threads items).flatten s x = s x) := by
-  induction items generalizing s with
-  | nil => exact ⟨by simp, fun x _ => rfl⟩
+theorem threads_comm (pid k₀ : Nat) (items : List (Entry δ × Name)) (hn : (items.map Prod.fst).Nodup)
+    (hw : ∀ it ∈ items, it.1.isWs = true) : ThreadsComm (threadsFrom pid k₀ items) := by
+  induction items generalizing k₀ with
+  | nil => simp [threadsFrom, ThreadsComm]
   | cons it rest ih =>
     have hn2 : (rest.map Prod.fst).Nodup := (List.nodup_cons.mp (by simpa using hn)).2
     have hnot : it.1 ∉ rest.map Prod.fst := (List.nodup_cons.mp (by simpa using hn)).1
-    have ih' := ih hn2 (fun j hj => ht j (by simp [hj])) (run (copyProc it.1 it.2) s)
-    have hrun : run (threads (it :: rest)).flatten s = run (threads rest).flatten (run (copyProc it.1 it.2) s) := by
-      simp only [threads, List.map_cons, List.flatten_cons]; rw [run_append]
+    unfold ThreadsComm
+    simp only [threadsFrom, List.pairwise_cons]
+    refine ⟨?_, ih (k₀ + 1) hn2 (fun j hj => hw j (by simp [hj]))⟩
+    intro u hu x hx y hy
+    obtain ⟨k, j, hk, hj, rfl⟩ := threadsFrom_mem pid (k₀ + 1) rest u hu
+    apply comm_of_apart
+    intro e he he2
+    have hne : it.1 ≠ j.1 := by
+      intro h; apply hnot; rw [h]; exact List.mem_map_of_mem hj
+    exact C17_footprints_disjoint pid k₀ k it.1 j.1 hne (by omega) (hw it (by simp)) (hw j (by simp [hj])) e
+      (copyProc_touches pid k₀ it.1 it.2 x hx e he) (copyProc_touches pid k j.1 j.2 y hy e he2)
+
+/-- the sequential run: every path ends with its own bytes; entries outside all footprints keep theirs -/
+theorem sequential_result (pid k₀ : Nat) (items : List (Entry δ × Name)) (hn : (items.map Prod.fst).Nodup)
+    (hw : ∀ it ∈ items, it.1.isWs = true) (s : Tree δ) :
+    (∀ it ∈ items, run (threadsFrom pid k₀ items).flatten s it.1 = some it.2) ∧
+    (∀ x, x.isWs = true → x ∉ items.map Prod.fst → run (threadsFrom pid k₀ items).flatten s x = s x) ∧
+    (∀ k, k₀ ≤ k → k < k₀ + items.length → run (threadsFrom pid k₀ items).flatten s (.tmp pid k) = none) ∧
+    (∀ pid' k, (pid' ≠ pid ∨ k < k₀ ∨ k₀ + items.length ≤ k) →
+        run (threadsFrom pid k₀ items).flatten s (.tmp pid' k) = s (.tmp pid' k)) := by
+  induction items generalizing s k₀ with
+  | nil => exact ⟨by simp, fun _ _ _ => rfl, fun k h1 h2 => by simp at h2; omega, fun _ _ _ => rfl⟩
+  | cons it rest ih =>
+    have hn2 : (rest.map Prod.fst).Nodup := (List.nodup_cons.mp (by simpa using hn)).2
+    have hnot : it.1 ∉ rest.map Prod.fst := (List.nodup_cons.mp (by simpa using hn)).1
+    have hitw : it.1.isWs = true := hw it (by simp)
+    obtain ⟨ih1, ih2, ih3, ih4⟩ := ih (k₀ + 1) hn2 (fun j hj => hw j (by simp [hj])) (run (copyProc pid k₀ it.1 it.2) s)
+    have hrun : run (threadsFrom pid k₀ (it :: rest)).flatten s
+        = run (threadsFrom pid (k₀ + 1) rest).flatten (run (copyProc pid k₀ it.1 it.2) s) := by
+      simp only [threadsFrom, List.flatten_cons]; rw [run_append]
     rw [hrun]
-    have hstep := C17_copy_step it.1 it.2 s
-    have hframe : ∀ e ∈ footprint it.1, ∀ j ∈ rest, e ∉ footprint j.1 := by
-      intro e he j hj
-      have hne : it.1 ≠ j.1 := by
-        intro h; apply hnot; rw [h]; exact List.mem_map_of_mem hj
-      exact C17_footprints_disjoint it.1 j.1 hne (ht it (by simp)) (ht j (by simp [hj])) e he
-    refine ⟨?_, ?_⟩
+    obtain ⟨hs1, hs2, hs3⟩ := C17_copy_step pid k₀ it.1 hitw it.2 s
+    refine ⟨?_, ?_, ?_, ?_⟩
     · intro j hj
       rcases List.mem_cons.mp hj with rfl | hj
-      · rw [ih'.2 _ (hframe _ (by simp [footprint])), ih'.2 _ (hframe _ (by simp [footprint]))]
-        exact ⟨hstep.1, hstep.2.1⟩
-      · exact ih'.1 j hj
-    · intro x hx
-      rw [ih'.2 x (fun j hj => hx j (by simp [hj]))]
-      exact hstep.2.2 x (hx it (by simp))
+      · rw [ih2 _ hitw hnot]; exact hs1
+      · exact ih1 j hj
+    · intro x hxw hx
+      have hx1 : x ≠ it.1 := fun h => hx (by simp [h])
+      have hx2 : x ∉ rest.map Prod.fst := fun h => hx (by simp only [List.map_cons, List.mem_cons]; exact Or.inr h)
+      rw [ih2 x hxw hx2]
+      apply hs3
+      simp only [footprint, List.mem_cons, List.mem_nil_iff, or_false, not_or]
+      refine ⟨hx1, ?_⟩
+      intro h; rw [h] at hxw; simp [Entry.isWs] at hxw
+    · intro k h1 h2
+      simp only [List.length_cons] at h2
+      by_cases hk : k = k₀
+      · subst hk
+        rw [ih4 pid k (Or.inr (Or.inl (by omega)))]; exact hs2
+      · exact ih3 k (by omega) (by omega)
+    · intro pid' k h
+      simp only [List.length_cons] at h
+      rw [ih4 pid' k (by rcases h with h | h | h; exact Or.inl h; exact Or.inr (Or.inl (by omega)); exact Or.inr (Or.inr (by omega)))]
+      apply hs3
+      simp only [footprint, List.mem_cons, List.mem_nil_iff, or_false, not_or]
+      refine ⟨?_, ?_⟩
+      · intro h'; rw [← h'] at hitw; simp [Entry.isWs] at hitw
+      · intro h'
+        have := Entry.tmp.inj h'
+        rcases h with h | h | h
+        · exact h this.1
+        · omega
+        · omega
 
-/-- **C17 for the targets of one parallel command.**  Distinct target paths, none named like a temporary file, any
-    number of threads, ANY schedule of their directory operations, from any tree: the command ends in the state of
-    the sequential run; every target holds exactly its object's bytes, no temporary entry is left and no other entry
-    changed. -/
-theorem C17_parallel_copies_materialise (items : List (WPath δ × Name)) (hn : (items.map Prod.fst).Nodup)
-    (ht : ∀ it ∈ items, ¬ IsTmp it.1.name) (zs : List (FsOp δ)) (hs : Schedule (threads items) zs) (s : Tree δ) :
-    run zs s = run (threads items).flatten s ∧
-    (∀ it ∈ items, run zs s it.1 = some it.2 ∧ run zs s (tmpPath it.1) = none) ∧
-    (∀ x, (∀ it ∈ items, x ∉ footprint it.1) → run zs s x = s x) := by
-  have h := schedule_run hs (threads_comm items hn ht) s
+/-- **C17 for the targets of one parallel command.**  Distinct workspace paths (whatever their names), any number of
+    threads, ANY schedule of their directory operations, from any tree: the command ends in the state of the
+    sequential run; every target holds exactly its object's bytes, the temporary entries of the command are gone, and
+    no other entry - workspace or temporary - changed. -/
+theorem C17_parallel_copies_materialise (pid k₀ : Nat) (items : List (Entry δ × Name))
+    (hn : (items.map Prod.fst).Nodup) (hw : ∀ it ∈ items, it.1.isWs = true)
+    (zs : List (FsOp δ)) (hs : Schedule (threadsFrom pid k₀ items) zs) (s : Tree δ) :
+    run zs s = run (threadsFrom pid k₀ items).flatten s ∧
+    (∀ it ∈ items, run zs s it.1 = some it.2) ∧
+    (∀ x, x.isWs = true → x ∉ items.map Prod.fst → run zs s x = s x) ∧
+    (∀ k, k₀ ≤ k → k < k₀ + items.length → run zs s (.tmp pid k) = none) := by
+  have h := schedule_run hs (threads_comm pid k₀ items hn hw) s
   rw [h]
-  exact ⟨rfl, sequential_result items hn ht s⟩
+  obtain ⟨h1, h2, h3, _⟩ := sequential_result pid k₀ items hn hw s
+  exact ⟨rfl, h1, h2, h3⟩
 
-/-! Non-vacuity and the negative witness. -/
+/-- **C03 for the copy step** (repair F29).  Whatever the tree holds - in particular a user's file with any name next
+    to the target - a copy step either fails without touching anything (its temporary entry exists already:
+    `create_new` refuses) or changes, among the workspace entries, the target only. -/
+theorem C03_copy_step_touches_only_target (pid k : Nat) (p : Entry δ) (hp : p.isWs = true) (b : Name) (s : Tree δ) :
+    (copyGuarded pid k p b s = none ∧ (s (.tmp pid k)).isSome) ∨
+    (∃ s', copyGuarded pid k p b s = some s' ∧ s' p = some b ∧ ∀ x, x.isWs = true → x ≠ p → s' x = s x) := by
+  unfold copyGuarded
+  cases h : s (.tmp pid k) with
+  | some v => exact Or.inl ⟨rfl, by simp⟩
+  | none =>
+    refine Or.inr ⟨_, rfl, (C17_copy_step pid k p hp b s).1, ?_⟩
+    intro x hxw hx
+    apply (C17_copy_step pid k p hp b s).2.2
+    simp only [footprint, List.mem_cons, List.mem_nil_iff, or_false, not_or]
+    exact ⟨hx, by intro h'; rw [h'] at hxw; simp [Entry.isWs] at hxw⟩
 
-/-- `model.bin` and `model.json` in one directory satisfy the hypotheses. -/
-example : let a : WPath Nat := ⟨0, [109, 46, 98]⟩; let b : WPath Nat := ⟨0, [109, 46, 106]⟩
-    ([(a, [1]), (b, [2])].map Prod.fst).Nodup ∧ ¬ IsTmp a.name ∧ ¬ IsTmp b.name := by
-  refine ⟨by decide, ?_, ?_⟩ <;> (rw [← C17_isTmpB_iff]; decide)
+/-! Non-vacuity and the negative witnesses. -/
+
+/-- `m.b` and `m.j` in one directory satisfy the hypotheses. -/
+example : let a : Entry Nat := .ws 0 [109, 46, 98]; let b : Entry Nat := .ws 0 [109, 46, 106]
+    ([(a, [1]), (b, [2])].map Prod.fst).Nodup ∧ a.isWs = true ∧ b.isWs = true := by
+  decide
 
 /-- a schedule of two threads exists that is not sequential (so the theorem is about real interleavings) -/
-example : Schedule (threads [((⟨0, [109, 46, 98]⟩ : WPath Nat), [1]), (⟨0, [109, 46, 106]⟩, [2])])
-    [.unlink (tmpPath ⟨0, [109, 46, 98]⟩), .unlink (tmpPath ⟨0, [109, 46, 106]⟩),
-     .write (tmpPath ⟨0, [109, 46, 98]⟩) [1], .write (tmpPath ⟨0, [109, 46, 106]⟩) [2],
-     .rename (tmpPath ⟨0, [109, 46, 106]⟩) ⟨0, [109, 46, 106]⟩, .rename (tmpPath ⟨0, [109, 46, 98]⟩) ⟨0, [109, 46, 98]⟩] := by
+example : Schedule (threadsFrom 7 0 [((.ws 0 [109, 46, 98] : Entry Nat), [1]), (.ws 0 [109, 46, 106], [2])])
+    [.createNew (.tmp 7 0), .createNew (.tmp 7 1), .write (.tmp 7 0) [1], .write (.tmp 7 1) [2],
+     .rename (.tmp 7 1) (.ws 0 [109, 46, 106]), .rename (.tmp 7 0) (.ws 0 [109, 46, 98])] := by
   refine Schedule.step (pre := []) ?_
   refine Schedule.step (pre := [_]) (post := []) ?_
   refine Schedule.step (pre := []) ?_
@@ -171,6 +196,14 @@ example : Schedule (threads [((⟨0, [109, 46, 98]⟩ : WPath Nat), [1]), (⟨0,
   refine Schedule.step (pre := []) ?_
   exact Schedule.done (by simp)
 
+/-- Before F29 (NOT the code any more): the temporary entry was the sibling `.<name>.xvc-tmp`, removed first.  A user's
+    file of that name (bytes `[9]`) next to the target `m` is gone after the copy and its bytes are nowhere. -/
+theorem C03_sibling_tmp_loses_user_file :
+    let s : Tree Nat := fun x => if x = .ws 0 (siblingTmpName [109]) then some [9] else none
+    let s' := run (copyProcSibling siblingTmpName 0 [109] [1]) s
+    s (.ws 0 (siblingTmpName [109])) = some [9] ∧ s' (.ws 0 (siblingTmpName [109])) = none ∧ s' (.ws 0 [109]) = some [1] := by
+  decide
+
 /-- With the `with_extension` naming (seeded change C17-3; NOT the code) siblings of one stem share the temporary name … -/
 theorem C17_with_extension_collides :
     tmpNameWithExtension [109, 46, 98] = tmpNameWithExtension [109, 46, 106] ∧ ([109, 46, 98] : Name) ≠ [109, 46, 106] := by
@@ -178,28 +211,27 @@ theorem C17_with_extension_collides :
 
 /-- … and a schedule of the two copies exists after which `m.j` holds the bytes of `m.b` and `m.b` does not exist. -/
 theorem C17_with_extension_counterexample :
-    let a : WPath Nat := ⟨0, [109, 46, 98]⟩; let b : WPath Nat := ⟨0, [109, 46, 106]⟩
-    let t : WPath Nat := ⟨0, tmpNameWithExtension a.name⟩
+    let t : Entry Nat := .ws 0 (tmpNameWithExtension [109, 46, 98])
+    let a : Entry Nat := .ws 0 [109, 46, 98]; let b : Entry Nat := .ws 0 [109, 46, 106]
     let zs : List (FsOp Nat) := [.unlink t, .write t [1], .unlink t, .write t [2], .write t [1], .rename t b, .rename t a]
+    Interleave (copyProcSibling tmpNameWithExtension 0 [109, 46, 98] [1])
+      [.unlink t, .write t [2], .rename t b] [.unlink t, .write t [1], .unlink t, .write t [2], .rename t b, .rename t a] ∧
     run zs (fun _ => none) b = some [1] ∧ run zs (fun _ => none) a = none := by
-  decide
+  refine ⟨?_, by decide, by decide⟩
+  exact .left (.left (.right (.right (.right (.left .nil)))))
 
 end XvcRepo.Tmp
 
-open XvcRepo.Tmp in
-#print axioms C17_tmp_name_injective
-open XvcRepo.Tmp in
-#print axioms C17_tmp_name_ne_self
-open XvcRepo.Tmp in
-#print axioms C17_tmp_name_has_reserved_shape
-open XvcRepo.Tmp in
-#print axioms C17_isTmpB_iff
 open XvcRepo.Tmp in
 #print axioms C17_footprints_disjoint
 open XvcRepo.Tmp in
 #print axioms C17_copy_step
 open XvcRepo.Tmp in
 #print axioms C17_parallel_copies_materialise
+open XvcRepo.Tmp in
+#print axioms C03_copy_step_touches_only_target
+open XvcRepo.Tmp in
+#print axioms C03_sibling_tmp_loses_user_file
 open XvcRepo.Tmp in
 #print axioms C17_with_extension_collides
 open XvcRepo.Tmp in
